@@ -1,4 +1,5 @@
 import IdpyVerif.Model.Msg
+import IdpyVerif.Model.MsgVerify
 namespace Idpy.Driver.Msg
 open Idpy Idpy.Wire Idpy.Msg Idpy.UrlEnc
 
@@ -25,6 +26,28 @@ def pairsOf : List Str → List (Bytes × Bytes)
   | a :: b :: rest => (a, b) :: pairsOf rest
   | _ => []
 
+/-- allowed-values field: "" = none, else values separated by U+001F, each `s<text>` or `i<digits>` -/
+def decAllowed (a : Str) : Option (List Val) :=
+  if a.isEmpty then none else
+  some ((UrlEnc.splitAll 31 (a.drop 1)).filterMap fun item =>
+    match item with
+    | 115 :: rest => some (.str rest)
+    | 105 :: rest => some (.int (rest.foldl (fun acc c => acc * 10 + (c - 48)) 0))
+    | _ => none)
+
+def mkSpec : List Str → List Str → List Str → List Str → List MsgVerify.PSpec
+  | n :: ns, k :: ks, r :: rs, a :: as =>
+    { name := n, kind := (kindOf (String.ofList (k.map Char.ofNat))).getD .other, required := r = [49], allowed := decAllowed a } :: mkSpec ns ks rs as
+  | _, _, _, _ => []
+
+def zipVals : List Str → List String → Option Msg
+  | [], [] => some []
+  | k :: ks, v :: vs => do
+    let val ← decVal v
+    let rest ← zipVals ks vs
+    some ((k, val) :: rest)
+  | _, _ => none
+
 def handle (args : List String) : Option String :=
   match args with
   | ["dict", k, v] => do
@@ -50,6 +73,10 @@ def handle (args : List String) : Option String :=
   | ["parseqs", kb, qs] => do
     let q ← decStr qs
     some (encList ((parseQsl (kb = "1") q).flatMap fun (k, v) => [k, v]))
+  | "verify" :: names :: kinds :: reqs :: allowed :: keys :: vals => do
+    let spec := mkSpec (← decList names) (← decList kinds) (← decList reqs) (← decList allowed)
+    let m ← zipVals (← decList keys) vals
+    some (if MsgVerify.verifyGeneric spec m then "ok" else "raise")
   | ["unq", t] => do some (encStr (unquotePlus (← decStr t)))
   | ["unquote", t] => do some (encStr (unquote (← decStr t)))
   | _ => none
